@@ -379,6 +379,9 @@ pub fn shrink(s: &dyn Scenario, case: &Value, rule: &str, budget: usize) -> (Val
       return false;
     }
     *used += 1;
+    if std::env::var("VERIF_DEBUG").is_ok() {
+      eprintln!("shrink candidate: {}", cand);
+    }
     if let Ok(o) = run_guarded(s, &cand) {
       if let Some(v) = o.violation {
         if v.rule == rule {
